@@ -30,6 +30,14 @@
 (*        running function registers under the evaluator's name, not the global context's:  *)
 (*        a legitimate re-registration is refused as a foreign take-over                    *)
 (*  "dm-service-multi-arg-rejected"  (dm) @service("a.b", "c.d") (documented) is refused      *)
+(*  "legacy-stop-before-first-run-leaks"  (legacy) a function stopped before its trigger    *)
+(*        task ran its first step (deleted / redefined / context closed right after the     *)
+(*        start, no quiescence in between): TrigInfo.stop finds nothing to unsubscribe, the *)
+(*        task then subscribes and is cancelled - the queues and the bus listener stay      *)
+(*                                                                                          *)
+(* Rush: a structural action may be followed by the next one before quiescence (quiet =     *)
+(* FALSE; hot = generations whose start is still in progress).  INTENDED: the result is the *)
+(* same as with quiescence in between - a stopped function / manager starts nothing more.   *)
 (*                                                                                          *)
 (* Eager = TRUE: deactivation completes within the action (what is compared with the code,  *)
 (* which is sampled at quiescence only).  Eager = FALSE: deactivation is deferred and       *)
@@ -41,7 +49,8 @@ EXTENDS Integers, Sequences, FiniteSets, TLC
 
 CONSTANTS MaxGen, MaxSteps, Ctx, Name, FlagSets, SubSet, StartedSet, Eager, DeclSet, Acts,
           MaxDefs,     \* definitions per file content (0..2)
-          Vias         \* how closures are created: subset of {"exec", "run"}
+          Vias,        \* how closures are created: subset of {"exec", "run"}
+          Rush         \* TRUE: the next action may be issued before the previous one has become quiescent
 
 Session == "c3"
 Svc == {"s1", "s2"}
@@ -50,7 +59,7 @@ Ent == {"a", "b", "c"}
 EntOf(n) == IF n \in {"a", "a.old", "a.x"} THEN "a" ELSE IF n \in {"b", "b.old"} THEN "b" ELSE "c"
 Ents(d) == { EntOf(n) : n \in d.st }
 NoOwner == "-"
-AllFlags == {"service-handler-not-repointed", "notify-del-returns-early", "dm-delayed-start-ignores-drop",
+AllFlags == {"legacy-stop-before-first-run-leaks", "service-handler-not-repointed", "notify-del-returns-early", "dm-delayed-start-ignores-drop",
              "dm-start-order-arbitrary", "dm-service-owner-is-evaluator-name", "dm-service-multi-arg-rejected"}
 
 Dc(st, ev, tt, svc, resp, sf) == [st |-> st, ev |-> ev, tt |-> tt, svc |-> svc, resp |-> resp, sf |-> sf]
@@ -77,17 +86,47 @@ AllDecls == 1..Len(DeclList)
 MaskedDecls == { i \in AllDecls : DeclList[i].sf = "stack" /\ Cardinality(Ents(DeclList[i])) = Cardinality(DeclList[i].st) }
 Decls == { DeclList[i] : i \in DeclSet }
 Data == {"-", "p=1", "p=2,q=x"}
-\* outgoing service calls from scripts: keywords given -> data that must be delivered
-OutCases == { [give |-> "p=1", deliver |-> "p=1"], [give |-> "p=2,q=x", deliver |-> "p=2,q=x"],
-              [give |-> "p=1,blocking=True", deliver |-> "p=1"],
-              [give |-> "return_response=False,p=2,q=x", deliver |-> "p=2,q=x"],
-              [give |-> "blocking=False", deliver |-> "-"] }
+\* Outgoing service calls from scripts (service.call(domain, name, **kw) and domain.name(**kw)).  A keyword is
+\* [k, t, v]: name, type of the value ("str" | "int" | "bool" | "none" | "ctx" = a Context object), value as text.
+\* RULE: a keyword is an option of the call iff it is one of the three names context / blocking / return_response
+\* AND its value has the qualifying type (Context, bool, bool); every other keyword - in particular a keyword of
+\* one of these names with a value of another type - is a service parameter and is delivered as data unchanged.
+Kw(k, t, v) == [k |-> k, t |-> t, v |-> v]
+IsOption(kw) == \/ kw.k = "context" /\ kw.t = "ctx"
+                \/ kw.k \in {"blocking", "return_response"} /\ kw.t = "bool"
+\* the keyword sets tried (each sorted by name): ordinary parameters, options of qualifying type, and parameters
+\* that are merely NAMED like options
+OutGives == {
+  <<Kw("p", "str", "1")>>,
+  <<Kw("p", "str", "2"), Kw("q", "str", "x")>>,
+  <<Kw("blocking", "bool", "True"), Kw("p", "str", "1")>>,
+  <<Kw("p", "str", "2"), Kw("q", "str", "x"), Kw("return_response", "bool", "False")>>,
+  <<Kw("blocking", "bool", "False")>>,
+  <<Kw("context", "str", "evening"), Kw("level", "int", "3")>>,
+  <<Kw("blocking", "str", "later"), Kw("p", "str", "1")>>,
+  <<Kw("blocking", "int", "0"), Kw("context", "none", "None"), Kw("return_response", "int", "3")>>,
+  <<Kw("context", "ctx", "vfctx"), Kw("p", "str", "1")>>,
+  <<Kw("blocking", "bool", "True"), Kw("context", "ctx", "vfctx"), Kw("return_response", "bool", "True"), Kw("x", "int", "1")>>,
+  <<Kw("return_response", "str", "no"), Kw("x", "int", "1")>>,
+  <<Kw("blocking", "none", "None"), Kw("return_response", "bool", "True")>> }
+\* what the called service must see: data = the non-option keywords (name, type, value unchanged); ctx = the call
+\* ran under the given Context; blk = the caller waited for the service (blocking given, else implied by
+\* return_response=True, else HA's default: no); rsp = the service's response came back to the script
+NoOut == [data |-> <<>>, ctx |-> FALSE, blk |-> FALSE, rsp |-> FALSE]
+OutExpect(give) ==
+  LET opt(name) == { i \in 1..Len(give) : give[i].k = name /\ IsOption(give[i]) }
+      isTrue(name) == \E i \in opt(name) : give[i].v = "True"
+      NotOption(kw) == ~IsOption(kw)
+  IN [ data |-> SelectSeq(give, NotOption),
+       ctx  |-> opt("context") # {},
+       blk  |-> IF opt("blocking") # {} THEN isTrue("blocking") ELSE isTrue("return_response"),
+       rsp  |-> isTrue("return_response") ]
 OutForms == {"name", "call"}
 
 VARIABLES flags, sub, started, unloaded, loaded, G, bind, cont, cnt, own, hd, subs, lst, tm,
-          runs, res, steps, lastAct
+          runs, res, steps, lastAct, quiet, hot
 vars == <<flags, sub, started, unloaded, loaded, G, bind, cont, cnt, own, hd, subs, lst, tm,
-          runs, res, steps, lastAct>>
+          runs, res, steps, lastAct, quiet, hot>>
 \* G[g] = [c, d, via, s, su, sd]: context, declaration, how created ("exec" | "run" | "file"), status, startup/
 \*   shutdown run counters.  status: "delayed" (context not started yet) | "zdelayed" (delayed, lost its last
 \*   reference, will be started anyway: deviation) | "live" | "zombie" (live without reference: deviation) |
@@ -99,7 +138,8 @@ vars == <<flags, sub, started, unloaded, loaded, G, bind, cont, cnt, own, hd, su
 \* are leaves of the exhaustive search; what they run is constrained by action properties.
 
 Range(s) == { s[i] : i \in 1..Len(s) }
-NoRes == [k |-> "-", g |-> 0, data |-> "-"]
+Res(k, g, data) == [k |-> k, g |-> g, data |-> data, o |-> NoOut]
+NoRes == Res("-", 0, "-")
 EmptyCont == [L |-> <<>>, D |-> 0]
 Run(g, k, x, data) == [g |-> g, k |-> k, x |-> x, data |-> data]
 MaxOf(S) == CHOOSE x \in S : \A y \in S : y <= x
@@ -116,7 +156,7 @@ Init == /\ flags \in FlagSets /\ sub \in SubSet /\ started \in StartedSet /\ unl
         /\ G = <<>> /\ bind = [c \in Ctx |-> [n \in Name |-> 0]] /\ cont = [c \in Ctx |-> EmptyCont]
         /\ cnt = [s \in Svc |-> 0] /\ own = [s \in Svc |-> NoOwner] /\ hd = [s \in Svc |-> 0]
         /\ subs = [x \in Ent |-> {}] /\ lst = [e \in Ev |-> {}] /\ tm = {}
-        /\ runs = {} /\ res = NoRes /\ steps = 0 /\ lastAct = [a |-> "init"]
+        /\ runs = {} /\ res = NoRes /\ quiet = TRUE /\ hot = {} /\ steps = 0 /\ lastAct = [a |-> "init"]
 
 \* ------------------------------------------------------------------ activation / deactivation
 Cur == [G |-> G, cnt |-> cnt, own |-> own, hd |-> hd, subs |-> subs, lst |-> lst, tm |-> tm, runs |-> {}]
@@ -149,7 +189,8 @@ Activate(w, g, zombie) ==
 
 \* release everything g holds.  leak: entities whose subscription is NOT released (deviation only).
 \* INTENDED: the handler of a service that is still declared becomes the latest remaining declaration.
-Release(w, g, leak, newStatus) ==
+\* keep: nothing of g's subscriptions / listeners is released (deviation only)
+Release(w, g, leak, newStatus, keep) ==
   LET d == w.G[g].d
       cnt1 == [s \in Svc |-> IF s \in d.svc THEN w.cnt[s] - 1 ELSE w.cnt[s]]
       rest(s) == Declarers(w, s) \ {g}
@@ -160,21 +201,21 @@ Release(w, g, leak, newStatus) ==
                                       ELSE IF cnt1[s] = 0 \/ rest(s) = {} THEN 0
                                       ELSE IF "service-handler-not-repointed" \in flags THEN @[s]
                                       ELSE MaxOf(rest(s))],
-               !.subs = [x \in Ent |-> IF x \in Ents(d) \ leak THEN @[x] \ {g} ELSE @[x]],
-               !.lst = [e \in Ev |-> @[e] \ {g}]]
+               !.subs = [x \in Ent |-> IF ~keep /\ x \in Ents(d) \ leak THEN @[x] \ {g} ELSE @[x]],
+               !.lst = [e \in Ev |-> IF keep THEN @[e] ELSE @[e] \ {g}]]
 Finish(w, g) ==        \* the trigger task ends: its timer goes, the shutdown run is made
   LET d == w.G[g].d IN
   [w EXCEPT !.G[g].s = "dead", !.G[g].sd = IF "shutdown" \in d.tt THEN @ + 1 ELSE @,
             !.tm = @ \ {g},
             !.runs = IF "shutdown" \in d.tt THEN @ \cup {Run(g, "shutdown", "-", "-")} ELSE @]
-Deactivate(w, g, leak) ==
-  IF Eager THEN Finish(Release(w, g, leak, "dead"), g)
-  ELSE IF sub = "legacy" THEN Release(w, g, leak, "pending")     \* subscriptions/services released at once
+Deactivate(w, g, leak, keep) ==
+  IF Eager THEN Finish(Release(w, g, leak, "dead", keep), g)
+  ELSE IF sub = "legacy" THEN Release(w, g, leak, "pending", keep)     \* subscriptions/services released at once
   ELSE [w EXCEPT !.G[g].s = "pending"]                           \* dm: everything stays until StopDeferred
 
-RECURSIVE FoldAct(_, _, _), FoldDeact(_, _, _)
+RECURSIVE FoldAct(_, _, _), FoldDeact(_, _, _, _)
 FoldAct(w, q, zs) == IF q = <<>> THEN w ELSE FoldAct(Activate(w, Head(q), Head(q) \in zs), Tail(q), zs)
-FoldDeact(w, q, lk) == IF q = <<>> THEN w ELSE FoldDeact(Deactivate(w, Head(q), lk[Head(q)]), Tail(q), lk)
+FoldDeact(w, q, lk, hk) == IF q = <<>> THEN w ELSE FoldDeact(Deactivate(w, Head(q), lk[Head(q)], Head(q) \in hk), Tail(q), lk, hk)
 
 \* entities that may keep a dead queue when the deviation is present: the iteration over the name set stops at
 \* the first name whose entity was already handled, i.e. behind a prefix of names with distinct entities
@@ -195,13 +236,13 @@ DeadOf(b1, k1, stopC) == { g \in Gen : \/ G[g].s = "live" /\ ~RefIn(g, b1, k1)
 \* (stopC) and contexts started at the end (startC); lk = leak choice per ending generation.
 \* Order as in the code: new definitions of a started context are activated first (register before remove),
 \* then generations without reference are deactivated, then delayed ones are started with their context.
-Trans(b1, k1, newG, stopC, startC, lk) ==
+Trans(b1, k1, newG, stopC, startC, lk, hk) ==
   LET n0  == Len(G)
       G1  == G \o newG
       new == (n0 + 1)..Len(G1)
       now == { g \in new : G1[g].s = "new" }                                   \* activated immediately
       w1  == FoldAct([Cur EXCEPT !.G = G1], SortedSeq(now), {})
-      w2  == FoldDeact(w1, SortedSeq(DeadOf(b1, k1, stopC)), lk)
+      w2  == FoldDeact(w1, SortedSeq(DeadOf(b1, k1, stopC)), lk, hk)
       zflag == "dm-delayed-start-ignores-drop" \in flags /\ sub = "dm"
       \* delayed / inert generations that lost their reference
       G3  == [g \in 1..Len(G1) |->
@@ -217,19 +258,28 @@ Trans(b1, k1, newG, stopC, startC, lk) ==
 \* generations started with their context in this step, per service (for the start-order deviation)
 StartedNow(w, s) == { g \in 1..Len(w.G) : /\ IsActive(w.G[g].s) /\ s \in w.G[g].d.svc
                                           /\ (g > Len(G) \/ G[g].s \in {"delayed", "zdelayed"}) }
+\* Deviations that make the handler nondeterministic: the start order of delayed managers; and - with handlers
+\* that are not re-pointed - a manager whose start is still in progress (hot) may register its services AFTER a
+\* newer definition did, so HA keeps the older (possibly already stopped) generation's callback.
 HdChoices(w, delayedStart) ==
-  IF delayedStart /\ "dm-start-order-arbitrary" \in flags /\ sub = "dm"
-  THEN LET ch(s) == IF Cardinality(StartedNow(w, s)) >= 2 THEN StartedNow(w, s) ELSE { w.hd[s] }
-       IN { ("s1" :> a) @@ ("s2" :> b) : a \in ch("s1"), b \in ch("s2") }
-  ELSE { w.hd }
+  LET order == delayedStart /\ "dm-start-order-arbitrary" \in flags /\ sub = "dm"
+      late  == "service-handler-not-repointed" \in flags /\ sub = "dm" /\ hot # {}
+      ch(s) == { w.hd[s] }
+               \cup (IF order /\ Cardinality(StartedNow(w, s)) >= 2 THEN StartedNow(w, s) ELSE {})
+               \cup (IF late /\ w.cnt[s] > 0 THEN { h \in hot : s \in G[h].d.svc } ELSE {})
+  IN IF order \/ late THEN { ("s1" :> a) @@ ("s2" :> b) : a \in ch("s1"), b \in ch("s2") } ELSE { w.hd }
 
-StepC(a) == steps < MaxSteps /\ steps' = steps + 1 /\ lastAct' = a /\ UNCHANGED <<flags, sub>>
+StepC(a) == /\ steps < MaxSteps /\ steps' = steps + 1 /\ lastAct' = a /\ UNCHANGED <<flags, sub>>
+            /\ quiet' \in (IF Rush THEN BOOLEAN ELSE {TRUE})
 Step(a) == ~unloaded /\ StepC(a)
 Quiescent == \A g \in Gen : G[g].s # "pending"
+\* generations that may keep everything they subscribed: stopped while their start was still in progress
+KeepChoices(dead) == IF "legacy-stop-before-first-run-leaks" \in flags /\ sub = "legacy" THEN SUBSET (dead \cap hot) ELSE {{}}
 Apply(b1, k1, newG, stopC, startC, delayedStart) ==
-  \E lk \in LeakFns(DeadOf(b1, k1, stopC)) :
-    LET w == Trans(b1, k1, newG, stopC, startC, lk) IN
+  \E lk \in LeakFns(DeadOf(b1, k1, stopC)), hk \in KeepChoices(DeadOf(b1, k1, stopC)) :
+    LET w == Trans(b1, k1, newG, stopC, startC, lk, hk) IN
     \E h \in HdChoices(w, delayedStart) :
+      /\ hot' = IF quiet' THEN {} ELSE { g \in 1..Len(w.G) : w.G[g].s = "live" /\ (g > Len(G) \/ G[g].s # "live") }
       /\ G' = w.G /\ cnt' = w.cnt /\ own' = w.own /\ hd' = h /\ subs' = w.subs /\ lst' = w.lst /\ tm' = w.tm
       /\ runs' = w.runs /\ res' = NoRes
       /\ bind' = b1 /\ cont' = k1
@@ -337,10 +387,10 @@ Boot(d1, d2) ==
      IN Apply(b1, cont, newG, {}, Ctx \ {Session}, TRUE)
   /\ UNCHANGED <<unloaded, loaded>>
 
-Occur(a, rs, r) == /\ ~unloaded /\ lastAct' = a /\ runs' = rs /\ res' = r
-                   /\ UNCHANGED <<flags, sub, steps, started, unloaded, loaded, G, bind, cont, cnt, own, hd, subs, lst, tm>>
+Occur(a, rs, r) == /\ ~unloaded /\ quiet /\ lastAct' = a /\ runs' = rs /\ res' = r
+                   /\ UNCHANGED <<quiet, hot, flags, sub, steps, started, unloaded, loaded, G, bind, cont, cnt, own, hd, subs, lst, tm>>
 Fire(e) == /\ "fire" \in Acts /\ started
-           /\ Occur([a |-> "fire", e |-> e], { Run(g, "event", e, "p=1") : g \in lst[e] }, NoRes)
+           /\ Occur([a |-> "fire", e |-> e], { Run(g, "event", e, "p=1") : g \in { h \in lst[e] : IsActive(G[h].s) } }, NoRes)
 SetState(x) == /\ "set" \in Acts /\ started
                /\ Occur([a |-> "set", x |-> x], { Run(g, "state", x, "-") : g \in { h \in subs[x] : IsActive(G[h].s) } }, NoRes)
 \* service call from outside; rr = return_response.  HA itself refuses rr for a service registered without
@@ -349,23 +399,24 @@ SetState(x) == /\ "set" \in Acts /\ started
 Call(s, data, rr) ==
   /\ "call" \in Acts /\ started /\ (hd[s] # 0 /\ G[hd[s]].d.resp = "only" => rr)
   /\ LET a == [a |-> "call", s |-> s, data |-> data, rr |-> rr] IN
-     IF hd[s] = 0 THEN Occur(a, {}, [k |-> "notfound", g |-> 0, data |-> "-"])
+     IF hd[s] = 0 THEN Occur(a, {}, Res("notfound", 0, "-"))
      ELSE LET g == hd[s]  rp == G[g].d.resp IN
-          IF (rr /\ rp = "none") \/ (~rr /\ rp = "only") THEN Occur(a, {}, [k |-> "err", g |-> 0, data |-> "-"])
+          IF (rr /\ rp = "none") \/ (~rr /\ rp = "only") THEN Occur(a, {}, Res("err", 0, "-"))
           ELSE Occur(a, { Run(g, "service", "-", data) },
-                     IF rr THEN [k |-> "val", g |-> g, data |-> data] ELSE [k |-> "none", g |-> 0, data |-> "-"])
+                     IF rr THEN Res("val", g, data) ELSE Res("none", 0, "-"))
 \* a script calls a foreign service (vt.sink): exactly the given keyword parameters are delivered
-Out(c, form, oc) ==
+Out(c, form, give) ==
   /\ "out" \in Acts /\ ExecOK(c)
-  /\ Occur([a |-> "out", c |-> c, form |-> form, give |-> oc.give], {}, [k |-> "out", g |-> 0, data |-> oc.deliver])
+  /\ Occur([a |-> "out", c |-> c, form |-> form, give |-> give], {}, [k |-> "out", g |-> 0, data |-> "-", o |-> OutExpect(give)])
 
 \* deferred completion of a deactivation (Eager = FALSE only)
 Complete(g, name) ==
   /\ G[g].s = "pending" /\ StepC([a |-> name, g |-> g])
   /\ \E lk \in LeakFns({g}) :
-       LET w == IF sub = "legacy" THEN Finish(Cur, g) ELSE Finish(Release(Cur, g, lk[g], "dead"), g) IN
+       LET w == IF sub = "legacy" THEN Finish(Cur, g) ELSE Finish(Release(Cur, g, lk[g], "dead", FALSE), g) IN
        /\ G' = w.G /\ cnt' = w.cnt /\ own' = w.own /\ hd' = w.hd /\ subs' = w.subs /\ lst' = w.lst /\ tm' = w.tm
        /\ runs' = w.runs /\ res' = NoRes
+  /\ hot' = IF quiet' THEN {} ELSE hot
   /\ UNCHANGED <<started, unloaded, loaded, bind, cont>>
 StopDeferred(g) == sub = "dm" /\ Complete(g, "stopdeferred")
 ReaperCancel(g) == sub = "legacy" /\ Complete(g, "reapercancel")
@@ -394,10 +445,10 @@ Next == \/ (started /\ \E c \in Ctx, n \in Name, d \in Decls : Define(c, n, d))
         \/ (started /\ \E e \in Ev : Fire(e))
         \/ (started /\ \E x \in Ent : SetState(x))
         \/ (started /\ \E s \in Svc, data \in Data, rr \in BOOLEAN : Call(s, data, rr))
-        \/ (started /\ \E c \in Ctx, f \in OutForms, oc \in OutCases : Out(c, f, oc))
+        \/ (started /\ \E c \in Ctx, f \in OutForms, give \in OutGives : Out(c, f, give))
         \/ (started /\ \E g \in Gen : StopDeferred(g) \/ ReaperCancel(g))
 Spec == Init /\ [][Next]_vars
-View == <<flags, sub, started, unloaded, loaded, G, bind, cont, cnt, own, hd, subs, lst, tm, steps>>
+View == <<flags, sub, started, unloaded, loaded, G, bind, cont, cnt, own, hd, subs, lst, tm, steps, quiet, hot>>
 
 \* ------------------------------------------------------------------ projection compared with the code
 Min(a, b) == IF a < b THEN a ELSE b
@@ -416,7 +467,8 @@ Proj == [ runs |-> runs, res |-> res,
           act  |-> [c \in {"c1", "c2", "c3"} |-> Cardinality({ g \in Gen : G[g].c = c /\ G[g].s \in {"live", "zombie"} })],
           ctx  |-> [c \in {"c1", "c2", "c3"} |-> c \in loaded],
           oth  |-> 0,
-          base |-> IF unloaded THEN (IF Clean THEN "clean" ELSE "tables") ELSE "-" ]
+          base |-> IF ~unloaded THEN "-" ELSE IF Clean THEN "clean"
+                   ELSE IF \E e \in Ev : lst[e] # {} THEN "listeners" ELSE "tables" ]
 
 \* ------------------------------------------------------------------ invariants (quiescent states)
 LiveGens == { g \in Gen : G[g].s = "live" }
@@ -463,11 +515,11 @@ CallDeliversDataAndTriggerType ==
 ResponseReturnedWhenSupported ==
   [][(lastAct'.a = "call" /\ steps' = steps /\ hd[lastAct'.s] # 0)
         => LET g == hd[lastAct'.s]  rp == G[g].d.resp IN
-           IF lastAct'.rr THEN (IF rp = "none" THEN res'.k = "err" ELSE res' = [k |-> "val", g |-> g, data |-> lastAct'.data])
+           IF lastAct'.rr THEN (IF rp = "none" THEN res'.k = "err" ELSE res' = Res("val", g, lastAct'.data))
            ELSE (IF rp = "only" THEN res'.k = "err" ELSE res'.k = "none")]_vars
 OutgoingCallDeliversGivenKeywords ==
   [][(lastAct'.a = "out" /\ steps' = steps)
-        => \E oc \in OutCases : oc.give = lastAct'.give /\ res' = [k |-> "out", g |-> 0, data |-> oc.deliver]]_vars
+        => res' = [k |-> "out", g |-> 0, data |-> "-", o |-> OutExpect(lastAct'.give)]]_vars
 \* generator mask for "service-handler-not-repointed": at most one live declaration per service
 MaskOneDeclaration == \A s \in Svc : cnt[s] <= 1
 \* witnesses (must be violated: the interesting situations are reachable)
